@@ -68,18 +68,48 @@ class Unit:
 
     def __init__(self, namespace: str, externs: dict | None = None):
         self.namespace = namespace
-        # externs: unparse-template -> (lean parameter name, lean type, arity); e.g. "hashlib.sha256(_).digest()"
+        # externs: python template with `_` holes -> (lean head term, monadic?, [(lean parameter name, lean type)]);
+        # e.g. "hashlib.sha256(_).digest()": ("sha256", False, [("sha256", "Bytes → Bytes")])
         self.externs = externs or {}
         self.sigs: dict[str, Sig] = {}
         self.defs: list[str] = []
         self.sources: dict[str, str] = {}
+        self.records: dict[str, list] = {}     # python class name -> [(field, lean type)]
+        self.methods: dict[str, str] = {}      # method name -> key in self.sigs
+        self.imports: list[str] = []
+
+    def use(self, other: "Unit", module: str):
+        """make the functions of another translated unit callable (qualified Lean names)"""
+        self.imports.append(module)
+        for k, sg in other.sigs.items():
+            q = Sig(f"{other.namespace}.{sg.name}", sg.params, sg.ret, list(sg.externs))
+            self.sigs.setdefault(k, q)
+
+    def declare_record(self, cls):
+        """a typing.NamedTuple class -> a Lean structure with the same field order"""
+        fields = []
+        anns = getattr(cls, "__annotations__", {})
+        for f in cls._fields:
+            a = anns.get(f)
+            a = getattr(a, "__forward_arg__", a)
+            node = ast.parse(a, mode="eval").body if isinstance(a, str) else None
+            if node is None:
+                node = ast.Name(id=getattr(a, "__name__", str(a)), ctx=ast.Load())
+            fields.append((f, self._ann(node)))
+        self.records[cls.__name__] = fields
+        body = "\n".join(f"  {lname(f)} : {t}" for f, t in fields)
+        self.defs.append(f"/-- `class {cls.__name__}(NamedTuple)` -/\nstructure {cls.__name__} where\n{body}\n  deriving DecidableEq, Repr\n")
 
     # ---- types ---------------------------------------------------------------------------------------------------
     def _ann(self, node, default_none=False):
         if node is None:
             raise Unsupported("parameter without annotation")
         t = None
-        if isinstance(node, ast.Name) and node.id in ANN:
+        if isinstance(node, ast.Constant) and isinstance(node.value, str):
+            node = ast.parse(node.value, mode="eval").body
+        if isinstance(node, ast.Name) and node.id in self.records:
+            t = node.id
+        elif isinstance(node, ast.Name) and node.id in ANN:
             t = ANN[node.id]
         elif isinstance(node, ast.Subscript) and ast.unparse(node.value) in ("Optional", "typing.Optional"):
             return f"Option {self._ann(node.slice)}"
@@ -121,7 +151,7 @@ class Unit:
         return t
 
     # ---- declaration ------------------------------------------------------------------------------------------------
-    def declare(self, fn, lean_name=None):
+    def declare(self, fn, lean_name=None, self_type=None, ret=None):
         """register the signature of `fn` (so that other functions can call it) and keep its AST"""
         src = textwrap.dedent(inspect.getsource(fn))
         mod = ast.parse(src)
@@ -136,8 +166,16 @@ class Unit:
         params = []
         pos = a.args
         defaults = [None] * (len(pos) - len(a.defaults)) + list(a.defaults)
-        for p, d in list(zip(pos, defaults)) + list(zip(a.kwonlyargs, a.kw_defaults)):
+        none_tested = {n.left.id for n in ast.walk(fd) if isinstance(n, ast.Compare) and isinstance(n.left, ast.Name) and len(n.ops) == 1
+                       and isinstance(n.ops[0], (ast.Is, ast.IsNot)) and isinstance(n.comparators[0], ast.Constant)
+                       and n.comparators[0].value is None}
+        for k, (p, d) in enumerate(list(zip(pos, defaults)) + list(zip(a.kwonlyargs, a.kw_defaults))):
             dterm = None
+            if k == 0 and self_type is not None:
+                if p.arg != "self" or d is not None:
+                    raise Unsupported(f"{fd.name}: first parameter of a method is not `self`")
+                params.append((p.arg, self_type, None))
+                continue
             if d is not None:
                 if not isinstance(d, ast.Constant):
                     # a module-level constant: evaluate it in the function's globals
@@ -154,14 +192,49 @@ class Unit:
                 dterm = self.const_term(dv, typ)
             else:
                 typ = self._ann(p.annotation)
+            if p.arg not in none_tested and not typ.startswith("Option ") and self._only_passed_to_option(fd, p.arg):
+                none_tested.add(p.arg)
+            if p.arg in none_tested and not typ.startswith("Option "):
+                typ = f"Option {typ}"      # the body compares the parameter with None: callers may pass None
+                if dterm is not None and dterm != "none":
+                    dterm = f"(some {dterm})"
             params.append((p.arg, typ, dterm))
-        if fd.returns is None:
-            raise Unsupported(f"{fd.name}: no return annotation")
-        ret = self._ann(fd.returns)
+        if ret is not None and fd.returns is None:
+            pass        # result type supplied by the plug-in for a function without return annotation
+        elif fd.returns is None:
+            if any(isinstance(n, ast.Return) and n.value is not None for n in ast.walk(fd)):
+                raise Unsupported(f"{fd.name}: returns a value but has no return annotation")
+            ret = "Unit"
+        else:
+            ret = self._ann(fd.returns)
         name = lean_name or fd.name
-        self.sigs[fd.name] = Sig(name, params, ret, [])
-        self.sources[fd.name] = src
+        key = fd.name if self_type is None else f"{self_type}.{fd.name}"
+        self.sigs[key] = Sig(name, params, ret, [])
+        if self_type is not None:
+            if fd.name in self.methods:
+                raise Unsupported(f"method name {fd.name} is not unique in the unit")
+            self.methods[fd.name] = key
+        self.sources[key] = src
+        fd._key = key
         return fd
+
+    def _only_passed_to_option(self, fd, pname) -> bool:
+        """every use of the parameter is as a direct argument of a translated function whose parameter accepts None"""
+        uses = [n for n in ast.walk(fd) if isinstance(n, ast.Name) and n.id == pname and isinstance(n.ctx, ast.Load)]
+        if not uses or any(isinstance(n, ast.Name) and n.id == pname and isinstance(n.ctx, ast.Store) for n in ast.walk(fd)):
+            return False
+        ok = set()
+        for c in ast.walk(fd):
+            if isinstance(c, ast.Call) and isinstance(c.func, ast.Name) and c.func.id in self.sigs:
+                sg = self.sigs[c.func.id]
+                for k, a in enumerate(c.args):
+                    if a in uses and k < len(sg.params) and sg.params[k][1].startswith("Option "):
+                        ok.add(id(a))
+                for kw_ in c.keywords:
+                    t = next((t for n, t, _ in sg.params if n == kw_.arg), "")
+                    if kw_.value in uses and t.startswith("Option "):
+                        ok.add(id(kw_.value))
+        return all(id(u) in ok for u in uses)
 
     def declare_partial(self, pyname, part: functools.partial):
         """`name = partial(f, **kw)` of a declared function"""
@@ -185,9 +258,9 @@ class Unit:
                          f"def {lname(pyname)}{binders} : Py {bs.ret} := {bs.name}{ext} {args}\n")
 
     # ---- translation ------------------------------------------------------------------------------------------------
-    def translate(self, fn, lean_name=None):
-        fd = self.declare(fn, lean_name)
-        sig = self.sigs[fd.name]
+    def translate(self, fn, lean_name=None, self_type=None, ret=None):
+        fd = self.declare(fn, lean_name, self_type, ret)
+        sig = self.sigs[fd._key]
         tr = _Fn(self, fd, sig)
         body = tr.run()
         sig.externs = tr.used_externs
@@ -201,7 +274,8 @@ class Unit:
         return sig
 
     def render(self, header: str) -> str:
-        out = [f"import CsVerif.Model.PyRt\n/-! {header}\nGENERATED by tools/py2lean.py from the working tree of /repo — do not edit. -/",
+        imps = "".join(f"import {m}\n" for m in self.imports)
+        out = [f"import CsVerif.Model.PyRt\n{imps}/-! {header}\nGENERATED by tools/py2lean.py from the working tree of /repo — do not edit. -/",
                f"namespace {self.namespace}", "open PyRt", ""]
         out += self.defs
         out.append(f"end {self.namespace}")
@@ -339,6 +413,9 @@ class _Fn:
             return pre, "(" + ", ".join(terms) + ")", False
         if isinstance(n, ast.Call):
             return self.call(n, ind)
+        if isinstance(n, ast.Attribute) and any(n.attr == f for fs in self.u.records.values() for f, _ in fs):
+            po, o, _ = self.expr(n.value, ind)
+            return po, f"{o}.{lname(n.attr)}", False
         raise Unsupported(f"{self.fd.name}: expression {type(n).__name__}: {ast.unparse(n)[:60]}")
 
     def kw(self, n: ast.Call, names, defaults):
@@ -375,13 +452,34 @@ class _Fn:
         f = n.func
         src = ast.unparse(f)
         # registered external functions, matched on the unparsed call with `_` for the arguments
-        for templ, (pname, ptype, arity) in self.u.externs.items():
+        for templ, (head, monadic, eparams) in self.u.externs.items():
             m = _match_template(templ, n)
             if m is not None:
-                if (pname, ptype) not in self.used_externs:
-                    self.used_externs.append((pname, ptype))
+                for ep in eparams:
+                    if ep not in self.used_externs:
+                        self.used_externs.append(ep)
                 pre, terms = self.args_terms(m, ind)
-                return pre, f"({pname} {' '.join(terms)})", False
+                if monadic:
+                    t = self.fresh()
+                    return pre + [f"{P}let {t} ← {head} {' '.join(terms)}"], t, False
+                return pre, f"({head} {' '.join(terms)})", False
+        if isinstance(f, ast.Name) and f.id in self.u.records:
+            fields = self.u.records[f.id]
+            items = self.kw(n, [fn_ for fn_, _ in fields], {})
+            pre, terms = self.args_terms(items, ind, [t for _, t in fields])
+            return pre, f"({f.id}.mk {' '.join(terms)})", False
+        if isinstance(f, ast.Attribute) and f.attr in self.u.methods:
+            sg = self.u.sigs[self.u.methods[f.attr]]
+            po, o, _ = self.expr(f.value, ind)
+            names = [p for p, _, _ in sg.params][1:]
+            items = self.kw(n, names, {p: d for p, _, d in sg.params if d is not None})
+            pre, terms = self.args_terms(items, ind, [t for _, t, _ in sg.params][1:])
+            for e in sg.externs:
+                if e not in self.used_externs:
+                    self.used_externs.append(e)
+            t = self.fresh()
+            ext = "".join(f" {e}" for e, _ in sg.externs)
+            return po + pre + [f"{P}let {t} ← {sg.name}{ext} {o} {' '.join(terms)}"], t, sg.ret == "Bool"
         if isinstance(f, ast.Name):
             if f.id in ("len", "sum", "bytearray", "bool") and len(n.args) == 1 and not n.keywords:
                 arg = n.args[0]
@@ -491,6 +589,21 @@ class _Fn:
                     raise Unsupported(f"{self.fd.name}: append to unknown list {v}")
                 p, t, _ = self.expr(st.value.args[0], ind)
                 out += p + [f"{P}{lname(v)} := {lname(v)} ++ [{t}]"]
+            elif isinstance(st, ast.Expr) and isinstance(st.value, ast.Call):
+                p, t, _ = self.expr(st.value, ind)
+                if p and p[-1].strip().startswith(f"let {t} ← "):
+                    p[-1] = p[-1].replace(f"let {t} ← ", "let _ ← ", 1)
+                out += p       # the call is bound in the prelude; its value is discarded
+            elif isinstance(st, ast.If) and self.guard_idiom(st):
+                v, kind, exc = self.guard_idiom(st)
+                inner = self.ptypes[v][len("Option "):]
+                out.append(f"{P}let {lname(v)} : {inner} ← (match {lname(v)} with")
+                if kind == "none":
+                    out.append(f"{P}  | some v => pure v")
+                else:
+                    out.append(f"{P}  | some v => if truthy v then pure v else throw {exc}")
+                out.append(f"{P}  | none => throw {exc})")
+                self.ptypes[v] = inner
             elif isinstance(st, ast.If):
                 idiom = self.none_default_idiom(st)
                 if idiom:
@@ -506,14 +619,17 @@ class _Fn:
                 p, c = self.cond(st.test, ind)
                 out += p
                 saved = set(self.declared)
+                saved_t = dict(self.ptypes)
                 body, tb = self.block(st.body, ind + 2)
                 self.declared = set(saved)
+                self.ptypes = dict(saved_t)
                 out.append(f"{P}if {c} then")
                 out += body or [f"{P}  pure ()"]
                 te = False
                 if st.orelse:
                     orelse, te = self.block(st.orelse, ind + 2)
                     self.declared = set(saved)
+                    self.ptypes = dict(saved_t)
                     out.append(f"{P}else")
                     out += orelse or [f"{P}  pure ()"]
                 term = tb and te
@@ -549,6 +665,25 @@ class _Fn:
                 raise Unsupported(f"{self.fd.name}: statement {type(st).__name__}: {ast.unparse(st)[:60]}")
         return out, term
 
+    def guard_idiom(self, st: ast.If):
+        """`if p is None: raise E(...)` / `if not p: raise E(...)` for an Option-typed parameter that is not assigned anywhere"""
+        if st.orelse or len(st.body) != 1 or not isinstance(st.body[0], ast.Raise):
+            return None
+        r = st.body[0]
+        name = r.exc.func.id if isinstance(r.exc, ast.Call) and isinstance(r.exc.func, ast.Name) else (r.exc.id if isinstance(r.exc, ast.Name) else None)
+        if name not in EXC or r.cause is not None:
+            return None
+        t = st.test
+        v = kind = None
+        if isinstance(t, ast.Compare) and len(t.ops) == 1 and isinstance(t.ops[0], ast.Is) and isinstance(t.left, ast.Name) \
+                and isinstance(t.comparators[0], ast.Constant) and t.comparators[0].value is None:
+            v, kind = t.left.id, "none"
+        elif isinstance(t, ast.UnaryOp) and isinstance(t.op, ast.Not) and isinstance(t.operand, ast.Name):
+            v, kind = t.operand.id, "falsy"
+        if v is None or not self.ptypes.get(v, "").startswith("Option ") or v in self.assigned:
+            return None
+        return v, kind, EXC[name]
+
     def none_default_idiom(self, st: ast.If):
         """`if p is None: p = e` for an Option-typed parameter"""
         t = st.test
@@ -566,13 +701,16 @@ class _Fn:
 
     def run(self):
         assigned = {n.id for n in ast.walk(self.fd) if isinstance(n, ast.Name) and isinstance(n.ctx, ast.Store)}
+        self.assigned = assigned
         head = []
         for p, _, _ in self.sig.params:
             if p in assigned and not self.ptypes[p].startswith("Option "):
                 head.append(f"  let mut {lname(p)} := {lname(p)}")
         body, term = self.block(self.fd.body, 2)
         if not term:
-            raise Unsupported(f"{self.fd.name}: a path reaches the end of the function without return")
+            if self.sig.ret != "Unit":
+                raise Unsupported(f"{self.fd.name}: a path reaches the end of the function without return")
+            body.append("  return ()")
         return head + body
 
 
